@@ -25,7 +25,7 @@ FUEL = 600
 TIMEOUT = 10.0
 
 ERR_MARKERS = ["error(\"boom\")", "error", "(null | error)", "halt(7)", "halt_error"]
-LOOP_MARKERS = ["(def f: f; f)", "(range(0; 1; 0) | empty)", "(repeat(1) | empty)", "last(repeat(1))"]
+LOOP_MARKERS = ["(def g: 0, (g | . + 1); g | select(. < 0))", "(def f: f; f)", "(range(0; 1; 0) | empty)", "(repeat(1) | empty)", "last(repeat(1))"]
 
 
 def shapes(k, m):
@@ -69,6 +69,8 @@ def consumers(k):
 
 
 def pyv(x):
+    if isinstance(x, dict):
+        return O(*[(S(k), pyv(v)) for k, v in x.items()])
     if isinstance(x, list):
         return A(*[pyv(y) for y in x])
     if isinstance(x, int):
@@ -100,6 +102,31 @@ def gen(ctx):
                     cases.append(dict(filter=st, inputs=[inp], kind="marker:" + sname, expect=[I(x) for x in P[:j]], limit=j, stop=True, cons="iterator-stop%d" % j, marker=m))
                 for j in range(1, k):
                     cases.append(dict(filter=st, inputs=[inp], kind="marker:" + sname, expect=[I(x) for x in P[:j]], limit=j, cons="iterator-cut%d" % j, marker=m))
+    # the same in path mode: streams of paths, every consumer inside and outside of path(...)
+    for k in range(1, kmax + 1):
+        arr = A(*[I(10 + i) for i in range(k + 2)])
+        pshapes = [("path-comma", "(%s@M, .[0])" % "".join(".[%d], " % i for i in range(k))),
+                   ("path-iterate", "(.[range(%d)], @M, .[0])" % k),
+                   ("path-recdef", "(def f($i): if $i == %d then @M else .[$i], f($i + 1) end; f(0))" % k),
+                   ("path-nontail", "(def g($i): .[$i], (g($i + 1) | .); limit(%d; g(0))), @M" % k)]
+        pmarkers = ["error(\"boom\")", "halt(7)", "(def g: .[0], (g | .); g | select(false))", "(def f: f; f)"]
+        for sname, s_ in pshapes:
+            for m in pmarkers:
+                st = s_.replace("@M", m)
+                P = [A(I(i)) for i in range(k)]
+                pc = [("path-first", "first(path(%s))" % st, [P[0]]), ("first-path", "path(first(%s))" % st, [P[0]]), ("path-isempty", "isempty(path(%s))" % st, ["false"])]
+                for j in range(1, k + 1):
+                    pc.append(("path-limit%d" % j, "limit(%d; path(%s))" % (j, st), P[:j]))
+                    pc.append(("limit-path%d" % j, "path(limit(%d; %s))" % (j, st), P[:j]))
+                    pc.append(("path-nth%d" % j, "nth(%d; path(%s))" % (j - 1, st), [P[j - 1]]))
+                    pc.append(("path-label%d" % j, "label $f | path(%s) | ., (if . == [%d] then break $f else empty end)" % (st, j - 1), P[:j]))
+                    pc.append(("paths-value%d" % j, "[limit(%d; path(%s))] as $ps | getpath($ps[-1])" % (j, st), [I(10 + j - 1)]))
+                if tier == "quick":
+                    pc = rng.sample(pc, min(len(pc), 5))
+                for cname, f, exp in pc:
+                    cases.append(dict(filter=f, inputs=[arr], kind="marker:" + sname, expect=exp, cons=cname, marker=m))
+                for j in range(1, k + 1):
+                    cases.append(dict(filter="path(%s)" % st, inputs=[arr], kind="marker:" + sname, expect=P[:j], limit=j, stop=True, cons="iterator-stop%d" % j, marker=m))
     # input consumption: (filter, limit, expected outputs, expected number of inputs consumed); inputs are 1, 2, 3, ...
     ins = [I(i) for i in range(1, 9)]
     T = []
@@ -131,6 +158,25 @@ def gen(ctx):
     T.append(("first(1, input) as $x | $x", 1, [1], 1))
     T.append(("[first(input), first(input, input)]", 1, [[2, 3]], 3))
     T.append(("reduce limit(2; inputs) as $x (0; . + $x)", 1, [5], 3))
+    T.append(("first(path(., (input as $x | .)))", 1, [[]], 1))
+    T.append(("path(first(., (input as $x | .)))", 1, [[]], 1))
+    T.append(("[limit(1; path(., (input as $x | .), (input as $y | .)))]", 1, [[[]]], 1))
+    T.append(("[limit(2; path(., (input as $x | .), (input as $y | .)))]", 1, [[[], []]], 2))
+    T.append(("first(path(.. , (input as $x | ..)))", 1, [[]], 1))
+    T.append(("input as $i | [first(path(., (input as $x | .))), input]", 1, [[[], 3]], 3))
+    T.append(("first(getpath([]), input)", 1, [1], 1))
+    T.append(("[limit(1; ., input)] | length", 1, [1], 1))
+    T.append(("first(if . then ., input else input end)", 1, [1], 1))
+    T.append(("first((., input) | select(. > 0))", 1, [1], 1))
+    T.append(("first(., (input | tostring))", 1, [1], 1))
+    T.append(("first(.[]?, ., input)", 1, [1], 1))
+    T.append(("first(try (., input) catch 0)", 1, [1], 1))
+    T.append(("first((., input) as $x | $x)", 1, [1], 1))
+    T.append(("first(foreach (., input) as $x (0; $x))", 1, [1], 1))
+    T.append(("first(reduce . as $x (0; $x), input)", 1, [1], 1))
+    T.append(("first(label $l | (., input))", 1, [1], 1))
+    T.append(("first(def f: ., input; f)", 1, [1], 1))
+    T.append(("first({a: (., input)})", 1, [{"a": 1}], 1))
     for j in range(1, 5):
         T.append(("limit(%d; inputs)" % j, j, list(range(2, 2 + j)), j + 1))
         T.append(("[limit(%d; inputs)]" % j, 1, [list(range(2, 2 + j))], j + 1))
@@ -220,6 +266,54 @@ def custom(ctx):
             viol.append(dict(key="endless-cost", what="%s: %d outputs take %.2fs, %d take %.2fs - the work per output grows" % (p, N, t1, 2 * N, t2), case=dict(filter=p, kind="endless-cost"), impl=None))
         else:
             stats["endless_cost_ok"] = stats.get("endless_cost_ok", 0) + 1
+    # 1b. natives against the definitions their documentation gives (jaq-core/src/funs.rs), k-th output by k-th output:
+    #     what the consumer of the first outputs sees must be the same, errors of the remainder included
+    RANGE_DEF = "def r($from; $to; $by): $from | if $by > 0 then while(. < $to; . + $by) elif $by < 0 then while(. > $to; . + $by) else while(. != $to; . + $by) end; r($a; $b; $c)"
+    LIMIT_DEF = "def lim($n; f): if $n <= 0 then empty else label $out | foreach f as $x ($n; . - 1; if . <= 0 then $x, break $out else $x end) end; lim($a; @S)"
+    SKIP_DEF = "def skp($n; f): if $n <= 0 then f else foreach f as $x ($n; . - 1; if . >= 0 then empty else $x end) end; skp($a; @S)"
+    rpool = [I(0), I(1), I(3), I(-1), I(-3), F(0.5), F(2.5), S("a"), S("b"), NULL, A(I(1)), A(), POS_INF, NEG_INF, TRUE, O()]
+    if tier == "quick":
+        rpool = rpool[:6] + ctx["rng"].sample(rpool[6:], 4)
+    dcases = []
+    pairs = []
+    k = 0
+    for a in rpool:
+        for b in rpool:
+            for c in rpool:
+                for lim in (1, 3):
+                    vs = [["a", a], ["b", b], ["c", c]]
+                    dcases.append(["n%d" % k, "run", b"range($a; $b; $c)", vs, ["null"], str(lim), "stop"])
+                    dcases.append(["d%d" % k, "run", RANGE_DEF.encode(), vs, ["null"], str(lim), "stop"])
+                    pairs.append((k, "range(%s; %s; %s) cut after %d" % (sx.dumps(a), sx.dumps(b), sx.dumps(c), lim)))
+                    k += 1
+    streams = ["(1, 2, 3)", "(1, error(\"x\"), 3)", "(1, 2, error(\"x\"))", "(error(\"x\"))", "empty", "(1, 2, halt(3))", "range(5)", "(.[]?, 1)", "(1, (2, 3 | ., error))"]
+    for st in streams:
+        for a in [I(-1), I(0), I(1), I(2), I(3), I(4), F(1.5), F(0.5), POS_INF]:
+            for lim in (1, 2, 4):
+                vs = [["a", a]]
+                for nm, nat, df in (("limit", "limit($a; %s)" % st, LIMIT_DEF.replace("@S", st)), ("skip", "skip($a; %s)" % st, SKIP_DEF.replace("@S", st))):
+                    if nm == "skip" and a[0] == "F" and a != POS_INF:
+                        continue        # the sketch in the documentation is about whole counts
+                    dcases.append(["n%d" % k, "run", nat.encode(), vs, ["null"], str(lim), "stop"])
+                    dcases.append(["d%d" % k, "run", df.encode(), vs, ["null"], str(lim), "stop"])
+                    pairs.append((k, "%s with $a=%s cut after %d" % (nat, sx.dumps(a), lim)))
+                    k += 1
+    dres = core.run_cases(core.JAQH, dcases, per_case_timeout=10.0)
+    for k_, what in pairs:
+        n_, d_ = dres.get("n%d" % k_), dres.get("d%d" % k_)
+        nn, dd = core.norm_out(n_), core.norm_out(d_)
+        # only the class of an error is compared (the messages of natives and definitions differ)
+        def cls(x):
+            if isinstance(x, list) and x and x[0] == "out":
+                t = x[2]
+                return [x[1], "error" if isinstance(t, list) and t and t[0] in ("err", "errc") else t]
+            return x
+        if cls(nn) == cls(dd):
+            stats["definition_agree"] = stats.get("definition_agree", 0) + 1
+        else:
+            stats["definition_differ"] = stats.get("definition_differ", 0) + 1
+            viol.append(dict(key="definition:" + what.split("(")[0], what="%s: the native gives %s, its documented definition %s" % (what, sx.dumps(n_)[:150], sx.dumps(d_)[:150]),
+                             case=dict(filter=what, kind="definition"), impl=n_))
     # 2. a pipe that stays open: each output appears before the next input is written
     def session(args, feeds, wait_exit):
         p = subprocess.Popen([J] + args, stdin=subprocess.PIPE, stdout=subprocess.PIPE, stderr=subprocess.PIPE)
@@ -273,4 +367,4 @@ def custom(ctx):
             viol.append(dict(key="head", what="jaq -n '%s' keeps running after its reader has gone" % prog, case=dict(filter=prog, kind="pipe"), impl=None))
         if len([l for l in lines if l]) != 3:
             viol.append(dict(key="head-lines", what="jaq -n '%s' did not deliver three lines to an early-closing reader" % prog, case=dict(filter=prog, kind="pipe"), impl=None))
-    return dict(stats=stats, evaluations=len(jobs) + len(sessions) + 3, distinct=set(p for p in progs), violations=viol, samples=[], coverage=dict(endless_N=N))
+    return dict(stats=stats, evaluations=len(jobs) + len(sessions) + 3 + len(dcases), distinct=set(p for p in progs), violations=viol, samples=[], coverage=dict(endless_N=N))
